@@ -209,7 +209,11 @@ def _get_fmtval_interp_strs(self: fst.FST) -> tuple[str | None, str | None, int,
                 if (g := m.group(1)) and g.startswith('#'):  # line ends in comment, nuke it
                     lines[i] = l[:m.start(1)]
 
-    dbg_str = '\n'.join(lines) if get_dbg else None
+    if not get_dbg:
+        dbg_str = None
+
+    else:  # the python parser joins lines which end with a line continuation in the debug string, 'a +\\\n b' -> 'a + b'
+        dbg_str = ''.join(l[:-1] if l.endswith('\\') else l + '\n' for l in lines[:-1]) + lines[-1]
 
     if not get_val:
         val_str = None
